@@ -353,9 +353,35 @@ def late_signature_doc(sig, advice):
     return root.toxml()
 
 
+def duplicate_id_doc(order):
+    """Unsigned response with two EncryptedAssertions for this SP: a genuine signed assertion and a forged one that
+    reuses its ID and carries a copy of its Signature (only one EncryptedData is opened per decryption round, so the
+    second becomes readable in a later round than the first)."""
+    now = env.BASE
+    g = forge.sign(forge.response(now, [forge.assertion(now, aid='DUP1', sign=True)]), 'DUP1', 'idpA')
+    gd = xmlsec.parse_doc(g)
+    ga = [e for e in elems(gd.documentElement) if e.localName == 'Assertion'][0]
+    f = ga.cloneNode(True)
+    for e in f.getElementsByTagNameNS(SAML, 'NameID'):
+        e.firstChild.data = 'FORGED-SUBJECT'
+    for e in f.getElementsByTagNameNS(SAML, 'AttributeValue'):
+        e.firstChild.data = 'FORGED-MARK'
+    root = gd.documentElement
+    if order == 'genuine-first':
+        root.appendChild(f)
+    else:
+        root.insertBefore(f, ga)
+    for a in [e for e in elems(root) if e.localName == 'Assertion']:
+        wrap = gd.createElementNS(SAML, 'saml:EncryptedAssertion')
+        root.replaceChild(wrap, a)
+        wrap.appendChild(a)
+        xmlsec.encrypt_node(gd, a, forge.enc_template(), world.pub('spXenc1'))
+    return root.toxml()
+
+
 def evaluate_late(task):
     sig, advice, cfgs = task
-    xml = late_signature_doc(sig, advice)
+    xml = duplicate_id_doc(advice) if sig == 'duplicate-id' else late_signature_doc(sig, advice)
     out = []
     for cfg in cfgs:
         env.Clock.set(env.BASE)
@@ -478,6 +504,8 @@ def run(ctx):
             tasks.append((dict(kind='multi', seq=list(seq), start='A', enc=False), ('multi', seq, mcfgs)))
     for sig_, adv_ in itertools.product(('junk', 'copied'), ('garbage', 'for-somebody-else', 'none')):
         tasks.append((dict(kind='late-signature', sig=sig_, advice=adv_, start='A', enc=True), ('late', sig_, adv_, mcfgs)))
+    for order_ in ('genuine-first', 'forged-first'):
+        tasks.append((dict(kind='late-signature', sig='duplicate-id', advice=order_, start='A', enc=True), ('late', 'duplicate-id', order_, mcfgs)))
     res = ctx.pmap(evaluate_any, [t for _c, t in tasks])
     ctx.recheck(evaluate_any, [t for _c, t in tasks], res, n=32)
     n_eval = 0
